@@ -33,6 +33,7 @@ structure AsmSource where
   orig : Word
   spans : List (Nat × Nat)
   src : List Char
+  deriving DecidableEq
 
 /-- `AsmSource::get_source_statement`: the span of the statement that produced the word at
 `address`, if any. -/
